@@ -1,10 +1,10 @@
 // C01 harness: Interpolation::Interpolate / Derivative, Interpolation_2D::Interpolate on the real library.
 //
-//   c01.eval  <tag> <xs> <ys> <xdim> <fdim> <pref> <mul> <M> (<x> <code>)^M     (in-process)
+//   c01.eval  <tag> <ctor> <xs> <ys> <xdim> <fdim> <pref> <mul> <M> (<x> <code>)^M     (in-process)
 //   c01.evalx (same, forked: the request may stop the process)
 //        code -1: Interpolate(x) through operator() ; code k >= 0: Derivative(x,k)
 //        answer: ok <value>^M
-//   c01.eval2 / c01.eval2x  <tag> <xs> <ys> <rows> (<row>)^rows <xdim> <ydim> <fdim> <pref> <mul> <M> (<x> <y>)^M
+//   c01.eval2 / c01.eval2x  <tag> <ctor> <xs> <ys> <rows> (<row>)^rows <xdim> <ydim> <fdim> <pref> <mul> <M> (<x> <y>)^M
 //        answer: ok <value>^M
 #define HZ_MAIN
 #include "common.hpp"
@@ -26,6 +26,7 @@ std::string handle(const std::string& op, Args& a)
 	if(op == "c01.eval" || op == "c01.evalx")
 	{
 		a.tok();	// family tag (used by the comparator only)
+		long long ctor = a.i64();	// 0: lists + operator(); 1: lists + named Interpolate(); 2: table constructor vector<vector<double>>; 3: default constructor
 		auto xs		= a.dbls();
 		auto ys		= a.dbls();
 		double xdim = a.dbl(), fdim = a.dbl(), pref = a.dbl(), mul = a.dbl();
@@ -38,13 +39,22 @@ std::string handle(const std::string& op, Args& a)
 		}
 		a.end();
 		auto body = [&](Out& o) {
-			Interpolation f(xs, ys, xdim, fdim);
+			Interpolation f;   // the default constructor: table {-1,0,1} -> {0,0,0}
+			if(ctor == 2)
+			{
+				std::vector<std::vector<double>> data;
+				for(size_t i = 0; i < xs.size(); i++)
+					data.push_back(i < ys.size() ? std::vector<double>{xs[i], ys[i]} : std::vector<double>{xs[i]});
+				f = Interpolation(data, xdim, fdim);
+			}
+			else if(ctor != 3)
+				f = Interpolation(xs, ys, xdim, fdim);
 			f.Set_Prefactor(pref);
 			f.Multiply(mul);
 			for(auto& q : qs)
 			{
 				if(q.code < 0)
-					o << f(q.x);
+					o << (ctor == 1 ? f.Interpolate(q.x) : f(q.x));
 				else
 					o << f.Derivative(q.x, (unsigned int) q.code);
 			}
@@ -54,6 +64,7 @@ std::string handle(const std::string& op, Args& a)
 	if(op == "c01.eval2" || op == "c01.eval2x")
 	{
 		a.tok();	// family tag
+		long long ctor = a.i64();	// 0: lists + operator(); 1: lists + named Interpolate(); 2: data-table constructor (rows x,y,f; x-major); 3: default constructor
 		auto xs		= a.dbls();
 		auto ys		= a.dbls();
 		size_t rows = a.u64();
@@ -70,11 +81,21 @@ std::string handle(const std::string& op, Args& a)
 		}
 		a.end();
 		auto body = [&](Out& o) {
-			Interpolation_2D g(xs, ys, f, xdim, ydim, fdim);
+			Interpolation_2D g;   // the default constructor: 3x3 grid on {-1,0,1}^2, all values 0
+			if(ctor == 2)
+			{
+				std::vector<std::vector<double>> data;
+				for(size_t i = 0; i < xs.size(); i++)
+					for(size_t j = 0; j < ys.size(); j++)
+						data.push_back({xs[i], ys[j], f[i][j]});
+				g = Interpolation_2D(data, xdim, ydim, fdim);
+			}
+			else if(ctor != 3)
+				g = Interpolation_2D(xs, ys, f, xdim, ydim, fdim);
 			g.Set_Prefactor(pref);
 			g.Multiply(mul);
 			for(auto& q : qs)
-				o << g(q.first, q.second);
+				o << (ctor == 1 ? g.Interpolate(q.first, q.second) : g(q.first, q.second));
 		};
 		return op == "c01.eval2x" ? run_forked(body) : run(body);
 	}
